@@ -11,6 +11,7 @@ import StorageModel.C10.Objectz
 import StorageModel.C10.TransformProofs
 import StorageModel.C10.ValidateProofs
 import StorageModel.C10.Pipeline
+import StorageModel.C10.Session
 import StorageModel.C10.BoltSymbols
 import StorageModel.C10.Expected
 import StorageModel.Generated.C10Sites
@@ -437,6 +438,53 @@ example : (objScanPrologue true none none [] none).isPanic = false := by decide
 example : (objEval false).isPanic = true := rfl
 example : (objScanPrologue false (some (-5)) (some 9223372036854775807) [(some .string, true), (none, false)] (some ())).isPanic = false := by decide
 
+/-! ## 1h. histories of ast.Parse calls: a result depends on its own text only (C10/Session.lean) -/
+
+/-- what the property demands of a process that parses one filter after another: whatever listener
+    state the earlier calls left behind (`found`), whatever symbol table each call uses, and whatever
+    callback sequences ANTLR's walks of the error-recovered trees of the rejected texts consisted of,
+    every call answers exactly as it would have answered alone -/
+def parse_history_fullStatement (perCall : Bool) : Prop :=
+  ∀ (found : LState) (h : List Call), parseHistory perCall found h = standalone h
+
+/-- ast.Parse as it is: the listener is constructed inside the call (`listener := NewListener()`,
+    fresh stacks, no error) and reaches zitiql.Parse from nowhere else -/
+theorem parse_listener_is_per_call : Generated.C10.astParseListenerPerCall = true := by decide
+
+/-- **no call of ast.Parse is altered by the calls before it — the full statement, for the code as
+    it is**: for every history of calls (sentences, non-sentences whose recovered trees were walked by
+    the listener, listener errors, typing errors, the empty filter), over any symbol tables, the
+    i-th result is `parseModel` of the i-th text; in particular (with `pipeline_total`) no call
+    panics and what a call returns can be evaluated. -/
+theorem parse_history_independent : parse_history_fullStatement Generated.C10.astParseListenerPerCall := by
+  rw [parse_listener_is_per_call]
+  exact parseHistory_perCall
+
+/-- the model follows the code either way: the full statement holds exactly when the listener is
+    constructed per call.  With a listener that outlives its call (pooled, package-level, …) and is
+    reused as it was left, the history `true )` (rejected: ANTLR drops the `)`, the recovered tree is
+    walked — BOOL, ExitQueryStmt —, its query node stays on the operand stack because getQuery, which
+    would pop it, is not reached when there are syntax errors), then `limit 5`, is answered with a query
+    whose predicate is that stale node instead of match-all (`Session.leak_history`). -/
+theorem parse_history_follows_code :
+    (Generated.C10.astParseListenerPerCall = true → parse_history_fullStatement Generated.C10.astParseListenerPerCall) ∧
+    (Generated.C10.astParseListenerPerCall = false → ¬ parse_history_fullStatement Generated.C10.astParseListenerPerCall) := by
+  constructor
+  · intro h; rw [h]; exact parseHistory_perCall
+  · intro h; rw [h]
+    exact fun hf => leak_history (hf .init leakHistory)
+
+/-- the leak, call by call: what the rejected text leaves behind, and what `limit 5` then becomes -/
+example : (parseCall false .init noSymbols "true )".toList [.term .BOOL "true".toList, .xQ]).2 = staleState := leak_leftover
+example : (parseCall false staleState noSymbols "limit 5".toList []).1
+    = .ok (.query (.query (.boolC true) none none none) none none (some 5)) := leak_second_call
+example : parseModel noSymbols "limit 5".toList = .ok (.query (.boolC true) none none (some 5)) := alone_second_call
+/-- a stale latch leaks too: every later sentence fails -/
+example : traces (parseHistory false ⟨[], [], true⟩ [⟨noSymbols, "true".toList, []⟩]) = [["err", "listener"]] := by decide
+/-- and the listener state a call finds is irrelevant when the listener is constructed per call -/
+example : (parseCall true ⟨[], [], true⟩ noSymbols "true".toList []).1 = parseModel noSymbols "true".toList :=
+  parseCall_perCall _ _ _ _
+
 /-! ## 1d. the tree-set cursor (ast/cursors.go, shared with C14) -/
 
 /-- **any tree, also the empty one, any number of extra Next calls**: the cursor script yields
@@ -492,3 +540,6 @@ end StorageModel.Properties.C10
 #print axioms StorageModel.Properties.C10.lex_tokens_match_rules
 #print axioms StorageModel.Properties.C10.lex_error_is_real
 #print axioms StorageModel.Properties.C10.lex_rejects_unrecognised
+#print axioms StorageModel.Properties.C10.parse_listener_is_per_call
+#print axioms StorageModel.Properties.C10.parse_history_independent
+#print axioms StorageModel.Properties.C10.parse_history_follows_code
